@@ -29,6 +29,31 @@ SWITCHERS = {
 }
 
 
+def covers_all_paths(f, blocks):
+    """every path from the entry of f to a return passes one of `blocks`"""
+    if not blocks:
+        return False
+    if 0 in blocks:
+        return True
+    rets = {bi for bi, bl in enumerate(f.blocks) if bl["t"][0] == "ret"}
+    reach = f.reachable_from(0, stop=set(blocks)) | {0}
+    return not any(r in reach and r not in blocks for r in rets)
+
+
+def event_blocks(fx, f, direct, depth=2):
+    """blocks of f at which an event surely happens: where `direct(f)` says so, or at the call of a private interpreter helper on all of whose
+    paths it happens (`begin_new_run()` clears the export table on every path: calling it is clearing the table)"""
+    out = set(direct(f))
+    if depth > 0:
+        for bi, t in f.calls():
+            d = t[1].get("d") or ""
+            if t[1].get("local") and d.startswith(INTERP + "::") and d in fx.fns and d != f.path and fx.fns[d].vis != "Public" and len(fx.fns[d].blocks) < 120:
+                g = fx.fns[d]
+                if covers_all_paths(g, event_blocks(fx, g, direct, depth - 1)):
+                    out.add(bi)
+    return out
+
+
 def run(tier):
     ck = Check("C11", tier, "install/restore provenance classification of writes to Interpreter.env and scratch fields + exit-path graph search on the MIR CFG; dominance rules for the active-run hand-off",
                ["that observer programs behave identically on a reused interpreter (values)",
@@ -37,7 +62,7 @@ def run(tier):
     ck.configs.append("A: cargo +nightly check --lib --features c-api")
     ck.anchor(INTERP in fx.adts, "struct Interpreter")
     ck.rule("R1.env-restore", "from every installation of Interpreter.env each exit passes a restore or a hand-off of the saved environment", floor=8)
-    ck.rule("R2.scratch-restore", "run-scoped scratch fields taken out (exports, current_module_path) are put back on every exit", floor=2)
+    ck.rule("R2.scratch-restore", "run-scoped scratch fields taken out (exports, current_module_path) are put back on every exit", floor=1)
     n_env = 0
     for f in fx.fns.values():
         for field, rule in (("env", "R1.env-restore"), ("exports", "R2.scratch-restore"), ("current_module_path", "R2.scratch-restore")):
@@ -175,15 +200,20 @@ def run(tier):
     for p, f in sorted(fx.fns.items()):
         if f.derived or f.closure or not p.startswith("interpreter::Interpreter::"):
             continue
-        parses = [bi for bi, t in f.calls() if (t[1].get("d") or "").endswith("Parser::<'a>::parse_program")]
+        import c19 as C19
+        parses = C19.reaches_call(fx, f, ("Parser::<'a>::parse_program",))
         if not parses or not str(f.vis if hasattr(f, "vis") else "").startswith("pub") and p.split("::")[-1] not in ("eval", "prepare"):
             continue
+        if p.split("::")[-1] not in ("eval", "prepare") and not any("ModulePath" in fx.tys(f.locals[i]) and fx.tys(f.locals[i]).startswith("std::option::Option<") for i in range(1, f.argc + 1)):
+            continue     # parses something else than a main program (provide_module)
         def clears_exports(g):
             return any((t[1].get("d") or "").endswith(("::clear", "::drain")) and t[2] and t[2][0][0] in ("c", "m")
                        and (E.field_of_ref(g, t[2][0][1][0]) or (None, None, None))[2] == "exports" for _, t in g.calls())
-        clear_blocks = {bi for bi, t in f.calls() if ((t[1].get("d") or "").endswith(("::clear", "::drain")) and t[2] and t[2][0][0] in ("c", "m")
-                                                       and (E.field_of_ref(f, t[2][0][1][0]) or (None, None, None))[2] == "exports")
-                        or (t[1].get("local") and t[1].get("d") in fx.fns and clears_exports(fx.fns[t[1]["d"]]))}
+        def direct_clear(g):
+            return {bi for bi, t in g.calls() if ((t[1].get("d") or "").endswith(("::clear", "::drain")) and t[2] and t[2][0][0] in ("c", "m")
+                                                   and (E.field_of_ref(g, t[2][0][1][0]) or (None, None, None))[2] == "exports")}
+        clear_blocks = event_blocks(fx, f, direct_clear) | {bi for bi, t in f.calls() if t[1].get("local") and t[1].get("d") in fx.fns and t[1].get("d") != p
+                                                             and covers_all_paths(fx.fns[t[1]["d"]], direct_clear(fx.fns[t[1]["d"]]))}
         # every path from the entry to the parse passes a point that empties the table (directly, or by disposing of the previous run)
         reach = set() if 0 in clear_blocks else (f.reachable_from(0, stop=clear_blocks) | {0})
         ok = bool(clear_blocks) and not any(pb in reach and pb not in clear_blocks for pb in parses)
@@ -211,29 +241,35 @@ def run(tier):
     for p, f in sorted(fx.fns.items()):
         if f.derived or f.closure or not p.startswith("interpreter::Interpreter::") or p.split("::")[-1] not in ("eval", "prepare"):
             continue
-        parses = [bi for bi, t in f.calls() if (t[1].get("d") or "").endswith("Parser::<'a>::parse_program")]
+        import c19 as C19
+        parses = C19.reaches_call(fx, f, ("Parser::<'a>::parse_program",))
         if not parses:
             continue
-        disp = [bi for bi, t in f.calls() if t[1].get("d") in disposers and any(pb in f.reachable_from(bi) for pb in parses)]
+        # the disposer is called here, or in a private helper called here (`begin_new_run()` tests for an unfinished run and disposes of it)
+        dnames = tuple(sorted(disposers))
+        disp = [bi for bi in (C19.reaches_call(fx, f, dnames) if dnames else []) if any(pb in f.reachable_from(bi) for pb in parses)]
         ok1 = bool(disp)
         ck.instance("R6c.entries-dispose-alike", "%s: disposer before the parse" % p, F.short_span(f.span), ok=ok1)
         if not ok1:
             ck.finding("R6c.entries-dispose-alike", "R6c.entries-dispose-alike/%s/disposer" % p, F.short_span(f.span),
                        "`%s` starts a program without giving an unfinished previous run to the disposer (%s): `eval(\"1 + 1\")` after a suspended run the host abandoned "
                        "answers Suspended, and after a run abandoned in mid-flight it executes in that run's scope with its call stack in place" % (p, ", ".join(sorted(d.split("::")[-1] for d in disposers))))
-        resets = set()
-        for bi, bl in enumerate(f.blocks):
-            for s_ in bl["s"]:
-                if s_[0] == "a" and any(a_ == INTERP and n_ == "pending_program" for a_, v_, n_ in F.place_fields(s_[1])):
-                    rv_ = s_[2]
-                    if rv_[0] == "use" and rv_[1][0] in ("c", "m") and not rv_[1][1][1]:
-                        d_ = M.trace_back(f, rv_[1][1][0])
-                        rv_ = d_[2] if d_ and d_[1] != "T" else rv_
-                    if rv_[0] == "agg" and isinstance(rv_[1], dict) and rv_[1].get("v") == "None":
-                        resets.add(bi)
-        for bi, t in f.calls():
-            if (t[1].get("d") or "").endswith("Option::<T>::take") and t[2] and t[2][0][0] in ("c", "m") and (E.field_of_ref(f, t[2][0][1][0]) or (0, 0, 0))[2] == "pending_program":
-                resets.add(bi)
+        def direct_reset(g):
+            out_ = set()
+            for bi, bl in enumerate(g.blocks):
+                for s_ in bl["s"]:
+                    if s_[0] == "a" and any(a_ == INTERP and n_ == "pending_program" for a_, v_, n_ in F.place_fields(s_[1])):
+                        rv_ = s_[2]
+                        if rv_[0] == "use" and rv_[1][0] in ("c", "m") and not rv_[1][1][1]:
+                            d_ = M.trace_back(g, rv_[1][1][0])
+                            rv_ = d_[2] if d_ and d_[1] != "T" else rv_
+                        if rv_[0] == "agg" and isinstance(rv_[1], dict) and rv_[1].get("v") == "None":
+                            out_.add(bi)
+            for bi, t in g.calls():
+                if (t[1].get("d") or "").endswith("Option::<T>::take") and t[2] and t[2][0][0] in ("c", "m") and (E.field_of_ref(g, t[2][0][1][0]) or (0, 0, 0))[2] == "pending_program":
+                    out_.add(bi)
+            return out_
+        resets = event_blocks(fx, f, direct_reset)
         reach = set() if 0 in resets else (f.reachable_from(0, stop=resets) | {0})
         ok2 = bool(resets) and not any(pb in reach and pb not in resets for pb in parses)
         ck.instance("R6c.entries-dispose-alike", "%s: pending_program reset before the parse" % p, F.short_span(f.span), ok=ok2)
@@ -331,8 +367,22 @@ def run(tier):
                 fl = F.place_fields(s[1])
                 if fl and fl[-1][0] == INTERP and fl[-1][2] in ("pending_program", "active_vm", "active_saved_env", "active_module_env", "active_module_path"):
                     book.append(bi)
+    # ... or is done by a private helper called here (`install_main_program(..)`, `defer_program_until_imported(..)`)
+    import c19 as C19
+    BOOK = ("pending_program", "active_vm", "active_saved_env", "active_module_env", "active_module_path")
+    for bi, t in pr.calls():
+        d = t[1].get("d") or ""
+        if t[1].get("local") and d.startswith(INTERP + "::") and d in fx.fns and d != pr.path and fx.fns[d].vis != "Public" \
+                and not d.endswith("abort_active_execution") and (C19.writes_fields(fx, fx.fns[d], INTERP, depth=0) & set(BOOK)):
+            # a helper that only *resets* bookkeeping on the way in (begin_new_run: pending_program = None) is part of the disposal, not an installation
+            if not any((t2[1].get("d") or "").endswith("Interpreter::abort_active_execution") for _, t2 in fx.fns[d].calls()):
+                book.append(bi)
     ck.anchor(bool(book), "prepare() writes run bookkeeping fields")
     must = [b for b, _ in ins] + book
+    # the disposal may live in a private helper (`begin_new_run()`: test for an unfinished run, abort it): its call is the disposal point
+    disposal_helpers = {q for q, g in fx.fns.items() if not g.derived and not g.closure and q.startswith(INTERP + "::") and g.vis != "Public" and q != pr.path
+                        and any((t2[1].get("d") or "").endswith("Interpreter::abort_active_execution") for _, t2 in g.calls())}
+    helper_calls = [bi for bi, t in pr.calls() if t[1].get("d") in disposal_helpers]
     ok = False
     for (sb, tt, ft, what) in tests:
         # the abort is on the true edge and the test dominates every install and every bookkeeping write
@@ -345,6 +395,8 @@ def run(tier):
             if not (reach - set(aborts)) & set(must):
                 ok = True
     if aborts and not tests and all(any(pr.dominates(a, b) for a in aborts) for b in must):
+        ok = True
+    if not aborts and helper_calls and all(any(pr.dominates(h, b) for h in helper_calls) for b in must):
         ok = True
     ck.instance("R4.prepare-disposes", "prepare", F.short_span(pr.span), ok=ok)
     if not ok:
@@ -360,6 +412,16 @@ def run(tier):
             fl = E.field_of_ref(pr, t[2][0][1][0])
             if fl and fl[0] == INTERP and fl[2] in ("active_vm", "suspended_for_order", "wait_graph"):
                 looked.add(fl[2])
+    # the decision taken in a disposal helper, possibly through a predicate (`if self.has_unfinished_run() { abort }`)
+    for q in sorted(disposal_helpers if helper_calls and not aborts else ()):
+        group = [fx.fns[q]] + [fx.fns[t[1]["d"]] for _, t in fx.fns[q].calls() if t[1].get("local") and (t[1].get("d") or "").startswith(INTERP + "::")
+                               and t[1]["d"] in fx.fns and fx.fns[t[1]["d"]].sig and fx.tys(fx.fns[t[1]["d"]].sig[-1]) == "bool"]
+        for g in group:
+            for bi, t in g.calls():
+                if t[2] and t[2][0][0] in ("c", "m"):
+                    fl = E.field_of_ref(g, t[2][0][1][0])
+                    if fl and fl[0] == INTERP and fl[2] in ("active_vm", "suspended_for_order", "wait_graph"):
+                        looked.add(fl[2])
     for slot in ("active_vm", "suspended_for_order", "wait_graph"):
         ck.instance("R4c.disposal-test-covers-slots", "prepare looks at %s before deciding" % slot, F.short_span(pr.span), ok=slot in looked)
         if slot not in looked:
